@@ -765,6 +765,12 @@ func (obj *SparseReal32MatrixJointIterator) Ok() bool {
          !(obj.s2 == nil || obj.s2.GetFloat32() == float32(0))
 }
 func (obj *SparseReal32MatrixJointIterator) Next() {
+  // skip positions where all operands are zero; stop when all
+  // iterators are exhausted
+  for obj.next() && !obj.Ok() {
+  }
+}
+func (obj *SparseReal32MatrixJointIterator) next() bool {
   ok1 := obj.it1.Ok()
   ok2 := obj.it2.Ok()
   obj.s1 = nil
@@ -792,6 +798,7 @@ func (obj *SparseReal32MatrixJointIterator) Next() {
   } else {
     obj.s2 = ConstFloat32(0.0)
   }
+  return ok1 || ok2
 }
 func (obj *SparseReal32MatrixJointIterator) Get() (Scalar, ConstScalar) {
   if obj.s1 == nil {
@@ -846,6 +853,12 @@ func (obj *SparseReal32MatrixJoint3Iterator) Ok() bool {
          !(obj.s3 == nil || obj.s3.GetFloat32() == 0.0)
 }
 func (obj *SparseReal32MatrixJoint3Iterator) Next() {
+  // skip positions where all operands are zero; stop when all
+  // iterators are exhausted
+  for obj.next() && !obj.Ok() {
+  }
+}
+func (obj *SparseReal32MatrixJoint3Iterator) next() bool {
   ok1 := obj.it1.Ok()
   ok2 := obj.it2.Ok()
   ok3 := obj.it3.Ok()
@@ -894,6 +907,7 @@ func (obj *SparseReal32MatrixJoint3Iterator) Next() {
   } else {
     obj.s3 = ConstFloat32(0.0)
   }
+  return ok1 || ok2 || ok3
 }
 func (obj *SparseReal32MatrixJoint3Iterator) Get() (Scalar, ConstScalar, ConstScalar) {
   if obj.s1 == nil {
